@@ -100,7 +100,9 @@ class FileModel:
                 add(['header4', idx])
 
         def rng(sl, n):
-            return range(*slice(*sl).indices(n)) if isinstance(sl, list) else [sl]
+            if isinstance(sl, list):
+                return range(*slice(*sl).indices(n))
+            return [sl + n if sl < 0 else sl]
 
         if name in NO_IO:
             return out
@@ -194,8 +196,19 @@ def route_of(call):
             'em_header': 'header', 'em_subvolume': 'subvolume'}.get(call[0], 'self')
 
 
+def merged(ranges):
+    out = []
+    for a, b in sorted(ranges):
+        if out and a <= out[-1][1]:
+            out[-1][1] = max(out[-1][1], b)
+        else:
+            out.append([a, b])
+    return [tuple(x) for x in out]
+
+
 def inside(lo, hi, ranges):
-    for a, b in ranges:
+    """[lo, hi) lies within the union of the ranges."""
+    for a, b in merged(ranges):
         if a <= lo and hi <= b:
             return True
     return False
@@ -251,6 +264,14 @@ def check_op(fm, op, opener, reqs, state, slot_key):
                                               f'{need["footer"][:6]}'), None
         else:
             return 'outside-needed-set', f'{call} requested bytes [{lo},{hi}) straddling a section boundary / header', None
+    for mr in mask_rng:
+        n_req = rr.count(mr)
+        allowed = (1 if mr in need['footer'] else 0) + (1 if slot_key not in state.setdefault('mask', set()) else 0)
+        if n_req > allowed:
+            return 'mask-fetched-again', (f'{call} requested the inline-number array (population mask) {n_req} times; this '
+                                          f'reader object had {"not " if allowed else ""}fetched it before'), None
+        if n_req > (1 if mr in need['footer'] else 0):
+            state['mask'].add(slot_key)
     if not need['slice_expr']:
         seen = []
         rr2 = list(rr)
@@ -268,9 +289,9 @@ def check_op(fm, op, opener, reqs, state, slot_key):
             missing = sorted(need['blocks'] - touched)[:8]
             return 'cold-read-incomplete', f'{call} on a fresh reader touched {len(touched)} of the {len(need["blocks"])} ' \
                                            f'needed blocks (missing {missing})', None
-        want = sorted(need['footer'])
-        got = sorted(set(f for f in foot if not inside(f[0], f[1], mask_rng) or f in want))
-        if want != got and not (need['mask_ok'] and sorted(set(foot)) == sorted(set(want + mask_rng))):
+        want = merged(need['footer'])
+        got = merged(f for f in foot if not inside(f[0], f[1], mask_rng) or inside(f[0], f[1], need['footer']))
+        if want != got and not (need['mask_ok'] and merged(foot) == merged(list(need['footer']) + mask_rng)):
             if call[0] in ('gen_trace_header', 'em_header') and L.structured:
                 return 'header-not-4-bytes-per-array', f'{call} requested {got[:6]}, needed exactly {want[:6]}', None
             return 'cold-footer-mismatch', f'{call} requested footer ranges {got[:6]}, needed {want[:6]}', None
